@@ -410,6 +410,15 @@ func genC10(r *R, sc *Scenario) {
 			s := simos.Script{LifeMs: -1, Exit: Pick(r, 0, 1), TermLagMs: Pick(r, 0, 10, 500, 1500, 3000), ExitOnSig: Pick(r, 0, 0, 143)}
 			ts.Launches = append(ts.Launches, s)
 		}
+		if r.P(200) && (p.Restart == "always" || p.Restart == "on_failure") {
+			// the first launch crashes while its prober is still waiting out the initial delay; the
+			// relaunch is probed on its own
+			ts.Launches[0].LifeMs, ts.Launches[0].Exit = Pick(r, 300, 1200, 2500), 1
+			p.Readiness.InitialDelay = iptr(Pick(r, 2, 3))
+			if p.MaxRestarts == 0 {
+				p.MaxRestarts = 3
+			}
+		}
 		if r.P(150) {
 			// a stop that lasts: SIGTERM is ignored and the time-out has to kill
 			for l := range ts.Launches {
